@@ -768,11 +768,13 @@ impl Property for C05 {
     fn rule(&self) -> String {
         "One child process per allocation limit (4 KiB, 64 KiB, 1 MiB, default 512 MiB; the limit is a process-wide write-once cell). \
          Seeds sample a valid stored artefact (binary datum, single-object message, container file with embedded schema over all six \
-         codecs, compressed block) built by the reference writer, 0-3 storage faults (truncate, flip bit, set byte, duplicate / drop / \
-         zero a range, replace a length/count/size/index varint by a hostile value around the limit or at the integer extremes), \
-         hostile header metadata (codec name swap, empty or odd avro.codec.compression_level, embedded schema declaring a huge fixed \
-         size), a read-chunk policy, EINTR every k-th call and an optional hard read error; a minority of runs use seeded random bytes, \
-         and all byte strings of length <= 2 (quick) / <= 3 (thorough) per schema are enumerated for the datum entry points. One \
+         codecs, compressed block, a container holding one block that inflates to 5 kB-6 MB, an array/map written as 2-64 blocks each \
+         within the limit whose sum is not, equal blocks each within the limit with a tight bound) built by the reference writer, 0-3 \
+         storage faults (truncate, flip bit, set byte, duplicate / drop / zero a range, replace a length/count/size/index varint by a \
+         hostile value around the limit or at the integer extremes, re-frame a block so that it declares more or fewer objects than it \
+         holds), hostile header metadata (codec name swap, empty or odd avro.codec.compression_level, embedded schema declaring a huge \
+         fixed size), a read-chunk policy, EINTR every k-th call and an optional hard read error; a minority of runs use seeded random \
+         bytes, and all byte strings of length <= 2 (quick) / <= 3 (thorough) per schema are enumerated for the datum entry points. One \
          evaluation = one library call (datum read_value with/without reader schema, read_deser into a non-retaining sink, single-object \
          read_value/read_deser, Reader::new + both iterators with a bounded number of next() calls, Codec::decompress) inside an \
          allocator window and a panic guard over a step-budgeted source. distinct_nontrivial counts distinct (limit, entry point, \
@@ -781,8 +783,8 @@ impl Property for C05 {
     }
     fn assumptions(&self) -> Vec<String> {
         vec![
-            "over-allocation bound per call: largest single request <= 4*limit + 64 KiB + 8*input_len (slack for HashMap bucket rounding, Vec doubling in read_to_end and element size); fixed before any run".into(),
-            "step budget per call: source calls <= 4*input_len + 4096, visitor callbacks <= 2*(input_len + limit) + 4096".into(),
+            "over-allocation bound per call: largest single request <= max(4*limit + 64 KiB + 8*input_len, fixed codec workspace: zstd 256 KiB, bzip2 4 MiB) (slack for HashMap bucket rounding, Vec doubling in read_to_end and element size); limit + 1 KiB for the equal-blocks artefact".into(),
+            "step budget per call: source calls <= 4*input_len + 4096, visitor callbacks <= 64*(input_len + 2)*(limit + 64); a call cut off at 20M callbacks below that bound is counted as inconclusive".into(),
             "allocations made by the C codec libraries through malloc are not seen by the Rust global allocator".into(),
             "nesting depth of generated data is bounded (unbounded recursion depth is an acknowledged non-goal of the library)".into(),
         ]
